@@ -43,6 +43,16 @@ CHECKS = {
         note="Coq kernel + vm_compute; models ParseTable.v, Reader.v; custom fixers return values of the column's type.",
         design="DESIGN.md section 5/C13",
     ),
+    "C04": dict(
+        text="Theorem: for any finite history of steps (arbitrary replacement of the dataframe's columns, facade add_column/setitem, physical relabelling, consultations) on a strict frame, a consultation of the non-empty frame either refuses or leaves the register equal to the dataframe's columns in order, each unit compatible with its dtype; hence units positional = per-column lookup. Model tied to the real Table/TableDataFrame by replaying operation histories over a 25-operation alphabet, comparing register, snapshot and raised flag after every operation; every __finalize__ call pandas makes is observed.",
+        note="Coq kernel + vm_compute; model Model/Frame.v; H_pandas_result (result columns/dtypes and the __finalize__ calls of a pandas operation are observed inputs); multi-source results are C05; non-strict frames are covered by the correspondence only.",
+        design="DESIGN.md section 5/C04",
+    ),
+    "C15": dict(
+        text="Same invariant theorem as C04 read for dtype compatibility (text <-> string/object, onoff <-> bool, no special unit on numeric data) incl. the skipped-validation shortcut, preservation of the snapshot relation by every step, default units by dtype. Correspondence and oracle on histories weighted to type-changing operations.",
+        note="Coq kernel + vm_compute; model Model/Frame.v; the direct unit setter with special units is outside the guarantee (as the statement says).",
+        design="DESIGN.md section 5/C15",
+    ),
 }
 ALL = [f"C{n:02d}" for n in range(1, 21)]
 NOT_YET = {p: "check not built yet in this revision (planned, see DESIGN.md section 5); not a claim that the technique cannot apply" for p in ALL if p not in CHECKS}
